@@ -1,6 +1,7 @@
 (* C15 — a filter is accepted only if its whole text is one expression. *)
 From Coq Require Import ZArith.
-From Syz Require Import QParse QParseProofs.
+From Coq Require Import List.
+From Syz Require Import QLex QParse QLexProofs QParseProofs QParseWhole.
 Open Scope N_scope.
 
 (* acceptance implies that the parser stands on the EOF token: every token of the text was consumed
@@ -9,6 +10,18 @@ Theorem C15_whole : forall pf fuel input e, parse_with_fuel pf fuel input = POk 
   exists s', p_or pf fuel (init_pst input) = POk (e, s') /\ ttyp (cur s') = TEOF.
 Proof. exact accept_reaches_eof. Qed.
 Print Assumptions C15_whole.
+
+(* ... and no text is left behind that token: the lexer yields EOF only when nothing but white space remains
+   (there is no sentinel byte that ends the text early), and the parser keeps that fact *)
+Theorem C15_whole_text : forall pf fuel input e, parse_with_fuel pf fuel input = POk e ->
+  exists s', p_or pf fuel (init_pst input) = POk (e, s') /\ ttyp (cur s') = TEOF /\ ttyp (pk s') = TEOF /\ inp s' = nil.
+Proof. exact accepted_uses_whole_text. Qed.
+Print Assumptions C15_whole_text.
+
+Theorem C15_eof_only_at_end : forall input t r, next_token input = (t, r) -> ttyp t = TEOF ->
+  forallb is_space input = true.
+Proof. intros input t r E H. apply skip_ws_nil_all_space. exact (eof_only_at_end input t r E H). Qed.
+Print Assumptions C15_eof_only_at_end.
 
 (* whatever follows a complete expression — anything but the end of the input — makes Parse fail *)
 Theorem C15_leftover : forall pf fuel input e s', p_or pf fuel (init_pst input) = POk (e, s') ->
